@@ -284,6 +284,10 @@ def c18_case(args):
             frame = tag + [sid & 0xFF, sid >> 8, len(canon)] + list(canon) + [0] * (8 - len(canon))
             inp = m.alloc(16)
             _put(m, inp, frame)
+            # an earlier frame on the same Can object: this binding's id on a bus that no binding uses (matches nothing)
+            foreign = [0x7E, 0x7E, 0x7E, 0x7E, sid & 0xFF, sid >> 8, 0] + [0] * 8
+            firstp = m.alloc(16)
+            _put(m, firstp, foreign)
             nameo = m.alloc(64)
             _put(m, nameo, [0] * 64)
             cap = []
@@ -295,7 +299,9 @@ def c18_case(args):
                 m.mem = dict(snap)
                 m.brk = brk
                 del cap[:]
-                r = llsym.run(m, "@can_dec", [inp, nameo])
+                r = llsym.run(m, "@can_dec2", [firstp, inp, nameo])
+                del cap[:-1]      # keep what the second Decode converted
+                cap[:] = [c for c in cap if c[0] == "DecodeJson"][-1:]
                 if not isinstance(r, int):
                     raise EngineLimit("can_dec result is symbolic")
                 r = llsym.sext(r, 64)
@@ -304,7 +310,7 @@ def c18_case(args):
             def mk_dec(mdl, sn=sn, frame=frame, inst=inst):
                 val = concretize(inst.value, mdl)
                 return dict(base, kind="can_decode", frame=[b if isinstance(b, int) else mdl.eval(b, model_completion=True).as_long() for b in frame],
-                            expected={"name": sn, "value": to_json(val)})
+                            first_frame=foreign, expected={"name": sn, "value": to_json(val)})
 
             try:
                 for pi, (kind, out, pc) in enumerate(eng.explore(dec_body, inst.assume)):
